@@ -22,6 +22,9 @@ func main() {
 	replay := flag.String("replay", "", "replay file")
 	one := flag.Int("one", -1, "run a single case verbosely")
 	flag.Parse()
+	if r := os.Getenv("VERIF_ROOT"); r != "" {
+		run.Root = r
+	}
 
 	if *seed == 0 {
 		*seed = 1
